@@ -12,12 +12,21 @@ def cls_pairs(maxlen=60):
             tree = ast.parse(open(f).read())
         except Exception:
             continue
-        for n in ast.walk(tree):
-            if isinstance(n, ast.Call) and len(n.args) == 1 and isinstance(n.args[0], ast.Constant) and isinstance(n.args[0].value, str):
-                fn = n.func
-                name = fn.id if isinstance(fn, ast.Name) else (fn.attr if isinstance(fn, ast.Attribute) else None)
-                v = n.args[0].value
-                if name and name[0].isupper() and 0 < len(v) <= maxlen and "\n" not in v and (name, v) not in seen and v.isascii():
-                    seen.add((name, v))
-                    pairs.append((name, v))
+        for fdef in [x for x in ast.walk(tree) if isinstance(x, ast.FunctionDef)] + [tree]:
+            alias = {}      # tcls = Some_Class
+            for n in ast.walk(fdef):
+                if isinstance(n, ast.Assign) and len(n.targets) == 1 and isinstance(n.targets[0], ast.Name):
+                    v = n.value
+                    nm = v.id if isinstance(v, ast.Name) else (v.attr if isinstance(v, ast.Attribute) else None)
+                    if nm and nm[0].isupper():
+                        alias.setdefault(n.targets[0].id, nm)
+            for n in ast.walk(fdef):
+                if isinstance(n, ast.Call) and len(n.args) == 1 and isinstance(n.args[0], ast.Constant) and isinstance(n.args[0].value, str):
+                    fn = n.func
+                    name = fn.id if isinstance(fn, ast.Name) else (fn.attr if isinstance(fn, ast.Attribute) else None)
+                    name = alias.get(name, name)
+                    v = n.args[0].value
+                    if name and name[0].isupper() and 0 < len(v) <= maxlen and "\n" not in v and (name, v) not in seen and v.isascii():
+                        seen.add((name, v))
+                        pairs.append((name, v))
     return pairs
